@@ -31,5 +31,6 @@ int main(int argc, char **argv) {
     else usage();
   }
   if (!a.out) usage();
+  vh_hooks_install();
   return vh_run_family(&a);
 }
